@@ -1,23 +1,103 @@
 From Base Require Import CInt.
-From C04 Require Import Gen Model Tactics ProofsNarrow ProofsA.
+From C04 Require Import Gen Model Tactics ProofsNarrow Proofs.
 Local Open Scope Z_scope.
-(* nelua_assert_imod_<T>: "division by zero" iff b = 0, Lua's floor modulo otherwise *)
-Lemma imod_fn_correct t a b : wf_ity t -> sgn t = true -> in_range t a -> in_range t b ->
-  ccall Gnu (imod_fn t true) [a; b] = if b =? 0 then Opanic MSG_DIVZERO else Oval (a mod b).
+
+(* ================================================================ the needs-check decision *)
+
+Lemma no_check_sound d s : wf_ity d -> wf_ity s ->
+  (needs_check d s = false <-> forall x, in_range s x -> in_range d x).
 Proof.
-  intros Ht Hs Ha Hb.
-  pose proof (lxor_range_signed t a b Ht Hs Ha Hb) as Hx. apply in_rangeb_spec in Hx.
-  apply in_rangeb_spec in Ha. apply in_rangeb_spec in Hb.
-  destruct (b =? 0) eqn:B0.
-  { ity_cases t Ht; try discriminate Hs; clear Hs. all: csolve. all: cfinish. }
-  destruct (b =? -1) eqn:B1.
-  { assert (b = -1) as -> by lia. replace (a mod -1) with 0 by (apply Z.mod_unique with (q := - a); lia).
-    ity_cases t Ht; try discriminate Hs; clear Hs. all: csolve. all: cfinish. }
-  rewrite (mod_from_rem a b) by lia.
-  pose proof (rem_bounds a b ltac:(lia)) as [R1 R2].
-  ity_cases t Ht; try discriminate Hs; clear Hs.
-  - assert (in_rangeb I8 (Z.rem a b) = true) by range_facts I8.
-    assert (in_rangeb I32 (Z.rem a b) = true) by (unfold I32; range_facts I8).
-    assert (in_rangeb I32 (Z.lxor a b) = true) by (unfold I32; range_facts I8).
-    csolve. all: repeat (split_one; zblack; eval_closed; bool_simpl; drop_wraps). all: try cleaf. Show.
-Abort.
+  intros Hd Hs. unfold needs_check, type_inrange. split.
+  - intros H x Hx. apply negb_false_iff in H. apply andb_prop in H. destruct H as [H1 H2].
+    apply in_rangeb_spec in H1, H2. unfold in_range in *. lia.
+  - intros H. apply negb_false_iff. apply andb_true_intro. split; apply in_rangeb_spec; apply H.
+    + pose proof (tmin_le_tmax s Hs). unfold in_range. lia.
+    + pose proof (tmin_le_tmax s Hs). unfold in_range. lia.
+Qed.
+
+(* implicit conversion in a checked build: exact *)
+Lemma implicit_conv_correct m s d x : wf_ity s -> wf_ity d -> in_range s x ->
+  implicit_conv m s d x = if in_rangeb d x then Oval x else Opanic MSG_NARROW.
+Proof.
+  intros Hs Hd Hx. unfold implicit_conv. destruct (needs_check d s) eqn:N.
+  - destruct (narrow_fn_defined s d Hs Hd N) as [f Hf]. rewrite Hf.
+    apply narrow_fn_correct with (s := s); assumption.
+  - pose proof (proj1 (no_check_sound d s Hd Hs) N x Hx) as Hdx.
+    unfold c_cast. rewrite c_conv_inrange by assumption.
+    apply in_rangeb_spec in Hdx. rewrite Hdx. reflexivity.
+Qed.
+
+(* explicit casts never trap and wrap (gcc/clang semantics) *)
+Lemma cast_wraps d x : wf_ity d -> explicit_cast Gnu d x = Oval (wrap d x).
+Proof. intros Hd. unfold explicit_cast, c_cast. rewrite c_conv_gnu by exact Hd. reflexivity. Qed.
+
+(* under ISO C alone the cast is defined only towards unsigned types or for representable values *)
+Lemma cast_iso d x : wf_ity d ->
+  explicit_cast Wrapv d x = if negb (sgn d) || in_rangeb d x then Oval (wrap d x) else Oub.
+Proof.
+  intros Hd. unfold explicit_cast, c_cast, c_conv. destruct (sgn d) eqn:S; cbn [is_gnu negb orb].
+  - destruct (in_rangeb d x) eqn:R; [|reflexivity].
+    apply in_rangeb_spec in R. rewrite wrap_id by assumption. reflexivity.
+  - rewrite wrap_unsigned by exact S. reflexivity.
+Qed.
+
+(* ================================================================ conversion sites *)
+
+Definition all_sites : list site :=
+  [SArg; SDecl; SAssign; SRet1; SRet2; SRetDefer; SArrInit; SRecInit; SRecArrInit; SFor; SCast].
+
+Lemma all_sites_complete st : In st all_sites.
+Proof. destruct st; cbn; tauto. Qed.
+
+(* full strength: every implicit conversion site is checked *)
+Definition all_implicit_sites_checked : Prop :=
+  forall st, site_implicit st = true -> site_checked st = true.
+
+Lemma sites_refuted : ~ all_implicit_sites_checked.
+Proof. intros H. specialize (H SRet1 eq_refl). vm_compute in H. discriminate. Qed.
+
+Definition unchecked_today (st : site) : bool :=
+  match st with SRet1 | SArrInit | SRecInit | SRecArrInit => true | _ => false end.
+
+Lemma sites_partial st : site_implicit st = true -> site_checked st = negb (unchecked_today st).
+Proof. destruct st; vm_compute; congruence. Qed.
+
+Lemma convert_at_correct m st s d x : wf_ity s -> wf_ity d -> in_range s x -> site_checked st = true ->
+  convert_at m st s d x = if in_rangeb d x then Oval x else Opanic MSG_NARROW.
+Proof. intros Hs Hd Hx C. unfold convert_at. rewrite C. apply implicit_conv_correct; assumption. Qed.
+
+Lemma convert_at_unchecked st s d x : wf_ity d -> site_checked st = false ->
+  convert_at Gnu st s d x = Oval (wrap d x).
+Proof. intros Hd C. unfold convert_at. rewrite C. apply cast_wraps; exact Hd. Qed.
+
+(* ================================================================ array indexing *)
+
+Lemma array_index_correct m t len i : wf_ity t -> in_range t i -> in_range USIZE len ->
+  array_index m t len i = if (0 <=? i) && (i <? len) then Oval i else Opanic MSG_BOUNDS.
+Proof. intros. unfold array_index. apply bounds_fn_correct; assumption. Qed.
+
+(* ================================================================ library guards *)
+
+(* when the accessor is allowed to proceed, in exact integers *)
+Definition lib_valid (op : libop) (pos size impl : Z) : bool :=
+  match op with
+  | SpanAt | VecAt | VecRemove => pos <? size
+  | VecInsert => pos <=? size
+  | VecPop => 0 <? size
+  | SeqAt => pos <=? size + 1
+  | SeqInsert => (0 <? pos) && (pos <=? size + 1)
+  | SeqRemove => negb (impl =? 0) && (0 <? pos) && (pos <=? size)
+  | SeqPop => negb (impl =? 0) && (0 <? size)
+  | StrAt => (1 <=? pos) && (pos <=? size)
+  end.
+
+Lemma lib_passes_correct m op pos size impl :
+  in_range USIZE pos -> in_range USIZE size -> in_range U64 impl -> size + 1 <= tmax USIZE ->
+  lib_passes m op pos size impl = Some (lib_valid op pos size impl).
+Proof.
+  intros Hp Hs Hi Hs1. apply in_rangeb_spec in Hp, Hs, Hi.
+  unfold USIZE, USIZE_BITS in *.
+  destruct op; destruct m.
+  all: csolve.
+  all: cfinish.
+Qed.
